@@ -296,6 +296,25 @@ def run(prog: Program, ctx: Ctx) -> None:  # noqa: PLR0912,PLR0915
         ctx.ob("R2", f"sequence|{n_pkgs} package(s)|InitVar base then derived", got2 == want2,
                f"Base(x, seed: InitVar, scale: InitVar = 2) processed, then Derived(Base)(y = 0) in {'the same' if n_pkgs == 1 else 'a later'} package: "
                f"synthesised parameter lists {got2}; CPython {want2}", where(opl))
+    # a property (or cached property) of the subclass named like an inherited field adds nothing to __annotations__: the field stays in the constructor
+    src = header + "@dataclass\nclass P:\n    tags: int = 0\n    size: int = 1\n@dataclass\nclass D(P):\n    b: int = 2\n    @property\n    def tags(self) -> int: return 0\n"
+    want7 = cpython_init(src, "D")
+    prop_attr = Obj(attr_cls, {"name": "tags", "annotation": expr_name("int"), "value": None, "labels": {"property"}, "is_attribute": True, "is_alias": False, "docstring": None}, label="tags (property)")
+    p_o = Obj(cls_cls, {"name": "P", "path": "m.P", "members": {"tags": attribute("tags", {"value": "0"}), "size": attribute("size", {"value": "1"})}, "decorators": [decorator(None)], "labels": set(),
+                        "set_member": Native(lambda n_, v_: None)}, label="P")
+    d_o = Obj(cls_cls, {"name": "D", "path": "m.D", "members": {"b": attribute("b", {"value": "2"}), "tags": prop_attr}, "decorators": [decorator(None)], "labels": set(),
+                        "set_member": Native(lambda n_, v_: None)}, label="D")
+    it.stubs[f"{M}.Class.mro"] = lambda _i, self_, p_o=p_o, d_o=d_o: [p_o] if self_ is d_o else []
+    captured.clear()
+    it.steps = 0
+    try:
+        it.call(sdi, d_o)
+        got7: object = "no __init__ synthesised" if not captured else [(p.attrs["name"], p.attrs["kind"].name.split(".")[-1], it.truth(it.getattr(p, "required"))) for p in it._iterate(captured[0])][1:]
+    except Raised as r:
+        got7 = f"raises {r.exc}"
+    rows += 1
+    ctx.ob("R2", "inherit|property of the subclass named like an inherited field", got7 == want7,
+           f"@dataclass class P: tags: int = 0; size: int = 1 / @dataclass class D(P): b: int = 2; @property def tags(self) -> int: griffe {got7}; CPython {want7}", where(sdi))
     # only the standard library's decorator makes a dataclass: a callable of the same name from somewhere else (a project's own `dataclasses.py`, a
     # registry decorator) leaves the class without a synthesised constructor and contributes no fields to its subclasses
     for dpath, is_dc in (("dataclasses.dataclass", True), ("pkg.dataclasses.dataclass", False), ("registry.dataclass", False), ("dataclasses.dataclass_transform", False)):
